@@ -19,11 +19,17 @@ def one(d):
         if p.returncode:
             return d, None
         out = {}
+        import contextlib, io
+        from sa.main import run_property
         for prop in sorted(CLAIMS):
-            c = subprocess.run([os.path.join(VERIF, 'check'), prop, '--no-write', '--no-selftest', '--root', dst], stdout=subprocess.PIPE, stderr=subprocess.STDOUT, text=True)
-            if c.returncode:
-                lines = [l.strip() for l in c.stdout.splitlines() if (l.startswith('  ') and ' — ' in l) or l.startswith('ANALYSIS-ERROR')]
-                out[prop] = (c.returncode, lines[:4])
+            buf = io.StringIO()
+            with contextlib.redirect_stdout(buf):
+                rc, _ = run_property(prop, 'quick', dst, write=False, selftest=False, share=True)
+            if rc:
+                lines = [l.strip() for l in buf.getvalue().splitlines() if (l.startswith('  ') and ' — ' in l) or l.startswith('ANALYSIS-ERROR')]
+                out[prop] = (rc, lines[:4])
+        from sa import main as _m
+        _m._REPOS.pop(dst, None)
         return d, out
     finally:
         shutil.rmtree(tmp, ignore_errors=True)
